@@ -30,6 +30,9 @@ def queries():
     qs = []
     SV = dict(unwind=130, timeout=900, object_bits=10, extra_cbmc=['--max-field-sensitivity-array-size', '200'], functions=FSVF)
     qs.append(Query('svf_table', 'harness', USV.unit_svf, 'h_svf_table', **SV))
+    for L in (127, 128, 129, 150):
+        SL = dict(SV); SL['unwind'] = 204; SL['extra_cbmc'] = ['--max-field-sensitivity-array-size', '260']
+        qs.append(Query(f'svf_long_{L}', 'harness', USV.unit_svf, 'h_svf_long', defines=['VERIF_STR_CAP=200', f'H_SVF_LONGLEN={L}'], **SL))
     qs.append(Query('svf_unknown', 'harness', USV.unit_svf, 'h_svf_unknown', bounded='unknown names of at most 11 characters', **SV))
     for a, n in enumerate(NAMES):
         da = [f'H_SVF_NAME_A="{n}"', f'H_SVF_BIT_A={a}']
